@@ -3,14 +3,25 @@
    the real code did with it in several runs; every run builds v afresh (another insertion order /
    construction history for every map inside v), prints it with vals.ReprPlain and vals.Repr(v, 0),
    evaluates both texts with the real Evaler and projects the results back to abstract values:
-     [id, v, runs : << [ord, plain, pretty, bp, bq] >>]
+     [id, chk, v, backs : << value >>, runs : << [ords, plain, pretty, bp, bq, eqp, eqq] >>]
    plain / pretty are the printed texts (hex strings: TLC compares strings, it need not index
-   them), bp / bq the values read back from them ([k |-> "error"] when evaluation failed or did not
-   give exactly one value).  JSON arrays arrive as sequences: Norm turns `ps` back into a set.
+   them); bp / bq index into `backs`, the distinct values read back ([k |-> "error"] when the
+   evaluation failed or did not give exactly one value); eqp / eqq are what the real `eq`
+   (vals.Equal) said about the original and the value read back.  Runs with identical records are
+   merged (ords lists their histories).
 
-   Accepted iff  Valid(v)  (otherwise the generator is defective: reason "illformed", an
-   infrastructure problem, never a verdict),  RTOK(v, bp) and RTOK(v, bq) in every run, and the
-   plain texts of all runs are one text, and so are the pretty texts (TextFunctional).
+   JSON form of values: atoms {k, a}, lists {k, es}, maps {k, ps : [[key, value] ...]} with the
+   entries of every map sorted by their JSON text (a canonical listing of the set; the executor
+   builds from TLC's / the generator's own order).  Norm turns the JSON form into Repr.tla's
+   records with `ps` a set.  Because RT is reflexive on well-formed values (checked by MCRepr on
+   its value set, by MCReprGen on every value it emits, and here when chk is set), a read-back
+   value whose canonical JSON form is identical to v's is accepted without unfolding RT.
+
+   Accepted iff  chk => NoLoss(v) /\ Valid(v) /\ RT(v, v)  (otherwise the random generator is
+   defective: reason "illformed", an infrastructure problem, never a verdict),  every read-back
+   value is RT-related to v, the real `eq` holds between original and read-back value when v is
+   NaN-free (the literal statement), and the plain texts of all runs are one text and so are the
+   pretty texts (TextFunctional).
    A rejected case prints <<"BAD", k, reason, TieClass(v), run index>>. *)
 EXTENDS Repr, TLC, Json
 Cases == ndJsonDeserialize("cases.ndjson")
@@ -19,25 +30,30 @@ Init == k = 0
 Next == k < Len(Cases) /\ k' = k + 1
 
 RECURSIVE Norm(_)
-Norm(j) == [k  |-> j.k, a |-> j.a,
-            es |-> [i \in 1..Len(j.es) |-> Norm(j.es[i])],
-            ps |-> {<<Norm(j.ps[i][1]), Norm(j.ps[i][2])>> : i \in 1..Len(j.ps)}]
+Norm(j) == IF j.k = "list" THEN List([i \in 1..Len(j.es) |-> Norm(j.es[i])])
+           ELSE IF j.k = "map" THEN Map({<<Norm(j.ps[i][1]), Norm(j.ps[i][2])>> : i \in 1..Len(j.ps)})
+           ELSE Atom(j.k, j.a)
 
-\* a map given with two entries for one key (modulo RT) loses an entry in Norm: ill-formed input
+\* a map given with two entries for one key loses an entry in Norm: ill-formed input
 RECURSIVE NoLoss(_)
-NoLoss(j) == /\ \A i \in 1..Len(j.es) : NoLoss(j.es[i])
-             /\ \A i \in 1..Len(j.ps) : NoLoss(j.ps[i][1]) /\ NoLoss(j.ps[i][2])
-             /\ Cardinality({<<Norm(j.ps[i][1]), Norm(j.ps[i][2])>> : i \in 1..Len(j.ps)}) = Len(j.ps)
+NoLoss(j) == IF j.k = "list" THEN \A i \in 1..Len(j.es) : NoLoss(j.es[i])
+             ELSE IF j.k = "map" THEN
+                  /\ \A i \in 1..Len(j.ps) : NoLoss(j.ps[i][1]) /\ NoLoss(j.ps[i][2])
+                  /\ Cardinality({Norm(j.ps[i][1]) : i \in 1..Len(j.ps)}) = Len(j.ps)
+             ELSE TRUE
+
+BackOK(c, i) == c.backs[i] = c.v \/ RTOK(Norm(c.v), Norm(c.backs[i]))
 
 FirstBad(c) ==
-  LET v  == Norm(c.v)
-      R  == 1..Len(c.runs)
-      bp == {i \in R : ~RTOK(v, Norm(c.runs[i].bp))}
-      bq == {i \in R : ~RTOK(v, Norm(c.runs[i].bq))}
+  LET R  == 1..Len(c.runs)
+      bp == {i \in R : ~BackOK(c, c.runs[i].bp)}
+      bq == {i \in R : ~BackOK(c, c.runs[i].bq)}
+      ne == {i \in R : ~(c.runs[i].eqp /\ c.runs[i].eqq)}
       Min(S) == CHOOSE i \in S : \A j \in S : i <= j
-  IN IF ~(NoLoss(c.v) /\ Valid(v)) THEN <<"illformed", 0>>
+  IN IF c.chk /\ ~(NoLoss(c.v) /\ Valid(Norm(c.v)) /\ RT(Norm(c.v), Norm(c.v))) THEN <<"illformed", 0>>
      ELSE IF bp # {} THEN <<"roundtrip-plain", Min(bp)>>
      ELSE IF bq # {} THEN <<"roundtrip-pretty", Min(bq)>>
+     ELSE IF ne # {} /\ NaNFree(Norm(c.v)) THEN <<"eq-real", Min(ne)>>
      ELSE IF ~TextFunctional([i \in R |-> c.runs[i].plain]) THEN <<"order-plain", 0>>
      ELSE IF ~TextFunctional([i \in R |-> c.runs[i].pretty]) THEN <<"order-pretty", 0>>
      ELSE <<"ok", 0>>
